@@ -16,10 +16,10 @@ CHECKS = {
  "C02": T("exploration", RM + "universal monitor (validation demanded => a 304 was obtained in this exchange, or the origin's own answer returned), validation-request and request-object snapshots, over random histories under the race detector",
    "Flags every from-store answer without a 304 in the same exchange where stored no-cache / stale must-revalidate / request no-cache / exceeded request max-age / a qualified no-cache field apply; checks validation requests and that the caller's request object is unchanged.",
    "client-supplied conditionals and duplicated directives are not judged", "DESIGN.md 4 C02"),
- "C03": T("exploration", RM + "bulk store/lookup of URI sets (all pairs implied) judged by an independent RFC 3986 equivalence classifier; every method and GET+Range against a populated cache; random histories",
+ "C03": T("exploration", RM + "bulk store/lookup of URI sets (all pairs implied) judged by an independent RFC 3986 equivalence classifier; every method and GET+Range against a populated cache; malformed percent-escapes in queries; random histories",
    "A foreign body token returned for a URI the classifier calls distinct, or any from-store answer to a non-GET / Range request, is a violation.",
    "pairs classified unknown (userinfo, '?' vs none, %2E dot segments, raw vs encoded non-ASCII, opaque vs hierarchical) are not judged", "DESIGN.md 4 C03"),
- "C04": T("exploration", RM + "universal monitor comparing the request that fetched the body with the current request on every nominated Vary field (aggressive normalisation => only sure differences count), over random histories with changing Vary sets",
+ "C04": T("exploration", RM + "universal monitor comparing the request that fetched the body with the current request on every nominated Vary field (aggressive normalisation => only sure differences count), over random histories with changing Vary sets, and a reuse part in which the caller re-targets its request object while a background validation is in flight",
    "A from-store, unvalidated answer whose stored Vary nominates a field on which the two requests surely differ, or whose Vary has a '*' member, is a violation.",
    "values the aggressive normaliser equates are not judged; true 64-bit hash collisions are not sought", "DESIGN.md 4 C04"),
  "C06": T("exploration", RM + "monitor on every Set reaching the recording driver.Conn (values scanned for body tokens / X-Msg ids of messages that must not be stored), over random histories",
@@ -45,10 +45,10 @@ CHECKS = {
  "C05": T("exploration", "runtime comparison behind real framing: raw HTTP/1.0 / 1.1 byte scripts over net.Pipe and unencrypted HTTP/2 over loopback through a real net/http client transport; the origin response is snapshotted before the cache sees it and compared field-by-field and byte-by-byte with what comes back from the store (memory, fs, encrypted fs); store writes scanned for hop-by-hop fields; a 304 phase checks merging and a replacement phase (forced validation answered with a full reply) repeats the comparison; a concurrent-stores part serialises and stores many resources at once and reads each back alone; race detector on",
    "Any difference in status, body bytes or the ordered values of an end-to-end field, any extra field, any hop-by-hop field stored or replayed, and any damaged miss body is a violation.",
    "trailers exercised but not asserted; HTTP/3 absent; header information net/http itself removes (e.g. a Connection header carrying 'close') cannot be judged", "DESIGN.md 4 C05"),
- "C13": T("fault_enumeration", RM + "scenario oracle over the full grid placement x window x staleness x failure kind (transport error, every status 400-599) x excluding directive; the scripted origin fails the validation and the result is compared with what the statement prescribes",
+ "C13": T("fault_enumeration", RM + "scenario oracle over the full grid placement x window x staleness x failure kind (transport error, every status 400-599) x excluding directive, plus windows too large to represent; the scripted origin fails the validation and the result is compared with what the statement prescribes",
    "Inside the window with an eligible failure and no must-revalidate / no-cache the stored response must come back STALE with a correct Age; otherwise the origin's reply or the error.",
    "staleness within 1 s of N (and within the failure's latency) is not judged", "DESIGN.md 4 C13"),
- "C14": T("exploration", "model-based runtime checking: every result of Set/Get/Delete/Keys (and of the maintenance HTTP handlers) compared with an in-harness map over adversarial key sets and backend configurations incl. reopen; porcupine linearizability check for concurrent memory-backend histories; disjoint-key concurrency on fs under the race detector",
+ "C14": T("exploration", "model-based runtime checking: every result of Set/Get/Delete/Keys (and of the maintenance HTTP handlers) compared with an in-harness map over adversarial key sets (incl. keys nested deeper than PATH_MAX) and backend configurations incl. reopen; porcupine linearizability check for concurrent memory-backend histories; disjoint-key concurrency on fs under the race detector",
    "Any result that differs from the map (wrong bytes, error on a legal key, missing ErrNotExist, wrong listing, aliasing with caller buffers) is a violation.",
    "keys up to about 6 kB (deeper than PATH_MAX); keys not addressable through an HTTP path segment are not judged via the API", "DESIGN.md 4 C14"),
  "C15": T("fault_enumeration", "porcupine linearizability checking of recorded concurrent fs histories with self-describing values (race detector on); child processes whose writes are cut at EVERY byte by RLIMIT_FSIZE; writers killed by timed SIGKILL or strace signal injection at syscall boundaries, with the on-disk states seen recorded; after every cut / kill the reopened backend must list consistently with Get and read a later, shorter Set back exactly; the same cut applied under a real transport",
@@ -60,13 +60,13 @@ CHECKS = {
  "C19": T("exploration", RM + "footprint monitor on the recording store: a finite request alphabet repeated 4*U*(1+H*V) rounds against origins using Vary ('*', alternating sets), validation, background refresh and unsuccessful POSTs; key count and index sizes compared with explicit bounds at R/4, R/2, R; emptiness after invalidation",
    "Exceeding U*(1+H*V) keys or H*V index records, or keys left after a successful unsafe request on a store holding only the target's keys, is a violation.",
    "a leak slower than one record per round would need more rounds", "DESIGN.md 4 C19"),
- "C20": T("exploration", RM + "scenario oracle over the full grid latency x background outcome x timeout setting x caller context x validators: foreground duration, number and conditionality of background calls, the exact instant the background request is released, goroutines with repository frames after quiescence",
+ "C20": T("exploration", RM + "scenario oracle over the full grid latency x background outcome x timeout setting x caller context x validators: foreground duration, number and conditionality of background calls, the exact instant the background request is released, goroutines with repository frames after quiescence; a store-faults part repeats the judgments with one store operation after the entry went stale failing in turn",
    "A foreground wait, a call count != 1, a missing validator, a release at another instant than min(timeout, caller context end, reply), a leaked goroutine or a failed foreground is a violation.",
    "'never answering' observed for 10T+2h virtual", "DESIGN.md 4 C20"),
  "C16": T("exploration", "Go race detector over free-running random histories with background revalidation (Mode R), snapshot comparison of every returned header map and body at return / quiescence / end of history, and a deterministic gate scheduler (Mode S) that parks every store and origin operation of two concurrent requests and enumerates their interleavings depth-first, judging each outcome against the sequential rules (resource, variant, body token, invalidation epoch); a store-faults part fails every foreground and background store operation in turn under the same ownership monitors, with callers that read the body only after quiescence",
    "Race reports with a repository frame, any change of a returned header map after return, any modification of the caller's request, and any response of an enumerated interleaving that no sequential rule permits are violations.",
    "race detector sees only reached paths and its report set varies run to run; Mode S covers pairs of requests from a 14-request alphabet (triples only sampled); interleavings inside one store/origin operation are left to Mode R", "DESIGN.md 3.6, 4 C16, A.2"),
- "C18": T("exploration", RM + "universal monitor: an only-if-cached exchange must have no upstream call (foreground or background, after quiescence) and be a usable stored response or the synthesised 504",
+ "C18": T("exploration", RM + "universal monitor: an only-if-cached exchange must have no upstream call (foreground or background, after quiescence) and be a usable stored response or the synthesised 504; a store-faults part repeats this with every store operation failing or returning damaged bytes in turn",
    "Any origin contact, any other result, or a stored response that needs validation is a violation.",
    "virtual time; random histories with only-if-cached sprinkled in", "DESIGN.md 4 C18"),
 }
